@@ -358,6 +358,136 @@ def oracle_internal_aliasing(ctx, classes=None):
     ctx.count("oracle_evaluations", n)
     return fails
 
+def _to_bytearray_fields(o, depth=0):
+    """replace every bytes-valued attribute reachable from `o` (own attributes, elements of list attributes, nested codec
+    objects) by an equal bytearray: a caller may hand the library mutable buffers; returns the number replaced"""
+    n = 0
+    if depth > 3 or not hasattr(o, "__dict__"):
+        return 0
+    for k, v in list(vars(o).items()):
+        if type(v) is bytes:
+            try:
+                setattr(o, k, bytearray(v)); n += 1
+            except Exception:
+                pass
+        elif isinstance(v, list):
+            for i, e in enumerate(v):
+                if type(e) is bytes:
+                    v[i] = bytearray(e); n += 1
+                elif hasattr(e, "__dict__") and type(e).__module__.startswith("AcraNetwork"):
+                    n += _to_bytearray_fields(e, depth + 1)
+        elif hasattr(v, "__dict__") and not isinstance(v, type) and type(v).__module__.startswith("AcraNetwork"):
+            n += _to_bytearray_fields(v, depth + 1)
+    return n
+
+def _as_bytes_canon(o):
+    return guarded(lambda: canon(o))
+
+def check_input_forms(args):
+    """the bytes a caller supplies may arrive as bytes, bytearray or memoryview, through `unpack(buf)` or through the
+    constructor-with-buffer form, and payload fields may be bytearrays:
+      * unpack(bytearray(b)) / unpack(memoryview(b)) leave the object in the same observable state as unpack(b);
+      * afterwards the decoded object does not depend on the caller's buffer (overwriting the bytearray changes nothing);
+      * Class(b) is Class() followed by unpack(b) (for the classes whose constructor takes a buffer), for each form;
+      * pack() of an object whose bytes fields are bytearrays returns the same bytes as with bytes fields, twice, and
+        leaves every field as it was (`+=` on a caller's bytearray would grow it)."""
+    import inspect
+    cls, opts = args["cls"], args["opts"]
+    a = ADAPTERS[cls]
+    cg = _classgens()[cls]
+    po = [pyval(parse_val(x)) for x in opts]
+    ua = [pyval(parse_val(v)) for v in cg.unpack_args]
+    b = bytes.fromhex(args["buf"])
+    ref = a.ctor(*po)
+    r0 = guarded(lambda: a.unpack(ref, b, *ua))
+    if r0[0] != "ok":
+        return None
+    want = _as_bytes_canon(ref)
+    if want[0] != "ok":
+        return None
+    # The properties quantify over byte strings (`bytes`).  For another bytes-like argument the claim made here is only:
+    # IF the call succeeds, it decodes the same bytes to the same state (a class may refuse the type with an ordinary
+    # exception — PTDP / PTFR do, through the hashing `lru_cache` of the Golay decoder — and a decoded object may keep
+    # a reference to a caller's mutable buffer — PCMMinorFrame in throughput mode does; neither is claimed here).
+    for form in ("bytearray", "memoryview"):
+        src = bytearray(b)
+        x = a.ctor(*po)
+        given = src if form == "bytearray" else memoryview(src)
+        r = guarded(lambda: a.unpack(x, given, *ua))
+        if r[0] != "ok":
+            continue
+        got = _as_bytes_canon(x)
+        if got[0] == "ok" and got[1] != want[1]:
+            return "%s.unpack(%s(b)) succeeds and leaves another state than unpack(b): %s instead of %s" % (cls, form, got[1][:160], want[1][:160])
+    # constructor-with-buffer form
+    real = type(ref)
+    try:
+        params = list(inspect.signature(real.__init__).parameters.values())[1:]
+    except Exception:
+        params = []
+    # (only for the adapter that stands for the class itself: variants such as EthernetFCS decode with other arguments)
+    if not po and params and params[0].name in ("buf", "buffer") and params[0].default is None and not ua \
+            and a.name == real.__name__:
+        for form, mk in (("bytes", bytes), ("bytearray", bytearray)):
+            r = guarded(lambda: real(mk(b)))
+            if r[0] != "ok":
+                if form == "bytes":
+                    return "%s(b) raises (%s) where %s().unpack(b) succeeds" % (cls, r[1], cls)
+                continue
+            got = _as_bytes_canon(r[1])
+            if got[0] == "ok" and got[1] != want[1]:
+                return "%s(b) with b a %s object is not %s() followed by unpack(b): %s instead of %s" % (cls, form, cls, got[1][:160], want[1][:160])
+    # pack with bytearray-valued fields
+    if cg.can_pack:
+        y = a.ctor(*po)
+        guarded(lambda: a.unpack(y, b, *ua))
+        pa = [pyval(parse_val(v)) for v in cg.pack_args]
+        p0 = guarded(lambda: a.pack(y, *pa))
+        z = a.ctor(*po)
+        guarded(lambda: a.unpack(z, b, *ua))
+        if p0[0] == "ok" and _to_bytearray_fields(z):
+            before = _as_bytes_canon(z)
+            p1 = guarded(lambda: a.pack(z, *pa))
+            mid = _as_bytes_canon(z)
+            p2 = guarded(lambda: a.pack(z, *pa))
+            if p1[0] == "ok" and bytes(p1[1]) != bytes(p0[1]):
+                return "%s.pack with bytearray payload fields emits other bytes than with bytes fields" % cls
+            if p1[0] == "ok" and p2[0] == "ok" and bytes(p2[1]) != bytes(p1[1]):
+                return "%s.pack twice on an object whose payload fields are bytearrays: second call emits %d bytes, first %d (a field grew in place)" % (
+                    cls, len(p2[1]), len(p1[1]))
+            yb = _as_bytes_canon(y)
+            if p1[0] == "ok" and mid[0] == "ok" and yb[0] == "ok" and mid[1] != yb[1]:
+                return "%s.pack changed a bytearray field of the object in place: %s instead of %s" % (cls, mid[1][:160], yb[1][:160])
+    return None
+
+def oracle_input_forms(ctx, classes=None):
+    fails, n = [], 0
+    for name, cg in sorted(_classgens().items()):
+        if classes is not None and name not in classes:
+            continue
+        if not (cg.can_pack and cg.can_unpack):
+            continue
+        bad = False
+        for opts in cg.opts[:3]:
+            for j in range(ctx.scale(5, 60)):
+                b = _valid_bytes(cg, opts, gen.sets(cg.valid(ctx.rng)))
+                if b is None:
+                    continue
+                args = {"cls": cg.cls, "opts": list(opts), "buf": b.hex()}
+                n += 1
+                try:
+                    w = check_input_forms(args)
+                except Exception as e:
+                    w = None
+                if w:
+                    fails.append(Failure("input_forms", args, w, {"class": cg.cls, "check": "input_forms"}))
+                    bad = True
+                    break
+            if bad:
+                break
+    ctx.count("oracle_evaluations", n)
+    return fails
+
 def oracle_no_sharing(ctx, classes=None):
     """run for every codec class (cheap); contributes to every codec property: a round trip 'into a new object'
     means nothing if new objects share state"""
@@ -436,7 +566,7 @@ def oracles_C13(ctx, hints):
             if bad:
                 break
     ctx.count("oracle_evaluations", n)
-    return fails + oracle_no_sharing(ctx) + oracle_internal_aliasing(ctx)
+    return fails + oracle_no_sharing(ctx) + oracle_internal_aliasing(ctx) + oracle_input_forms(ctx)
 
 # ------------------------------------------------------------------------------------------- C14
 def _twins(ctx, cg):
@@ -771,5 +901,5 @@ def oracles_C08(ctx, hints):
     ctx.count("oracle_evaluations", n)
     return fails
 
-ORACLES = {"no_sharing": check_no_sharing, "internal_aliasing": check_internal_aliasing, "forwarded": check_forwarded, "history_independence": check_history_independence, "two_objects": check_two_objects,
+ORACLES = {"no_sharing": check_no_sharing, "input_forms": check_input_forms, "internal_aliasing": check_internal_aliasing, "forwarded": check_forwarded, "history_independence": check_history_independence, "two_objects": check_two_objects,
            "eq": check_eq, "eq_decode": check_eq_decode, "eq_foreign": check_eq_foreign, "total": check_total}
